@@ -90,6 +90,20 @@ func Programs() []Input {
 	// readstring on clear text
 	rs := "/buf 10 string def currentfile buf readstring 0123456789 pop length (tail) \n"
 	out = append(out, Input{Name: "readstring-clear", Kind: "ps", Data: []byte(rs)})
+	// in-line data that contains line ends, followed by DSC comment lines: where a
+	// line starts after the data must not depend on how the data arrived
+	for _, v := range []struct{ name, data string }{
+		{"readstring-then-dsc", "abc\ndef\nghi\n"},
+		{"readstring-then-dsc-crlf", "abc\r\ndef\r\ngh\r\n"},
+		{"readstring-then-dsc-no-final-newline", "abc\ndef\nghij"},
+		{"readstring-then-dsc-long", strings.Repeat("0123456789abcde\n", 70)},
+	} {
+		prog := fmt.Sprintf("%%!PS\n%%%%BeginData: %d Binary Bytes\n/buf %d string def currentfile buf readstring\n%s%%%%EndData\npop /got exch def\n%%%%Trailer: after data\n%%%%+ continued\n/x 1 def\n%%%%EOF\n", len(v.data), len(v.data), v.data)
+		out = append(out, Input{Name: v.name, Kind: "ps", Data: []byte(prog)})
+	}
+	dataPlain := []byte("/S 12 string def currentfile S readstring\nabc\ndef\nghi\n%%InsideEexec: yes\npop /T exch def mark currentfile closefile\n")
+	out = append(out, Input{Name: "eexec-binary-readstring-then-dsc", Kind: "ps", Data: append(append(append([]byte("%!PS\ncurrentfile eexec\n"), Eexec(dataPlain)...), '\n'), (strings.Repeat(zeros, 8) + "cleartomark\n%%AfterEexec: clear\n/after 2 def\n")...)})
+	out = append(out, Input{Name: "eexec-hex-readstring-then-dsc", Kind: "ps", Data: append(append([]byte("%!PS\ncurrentfile eexec\n"), Hex(Eexec(dataPlain))...), (strings.Repeat(zeros, 8) + "cleartomark\n%%AfterEexec: clear\n/after 2 def\n")...)})
 	plain := []byte("/secret 42 def /S 5 string def currentfile S readstring ab\x00\xffc pop /T exch def /proc {secret 1 add} def mark currentfile closefile\n")
 	trailer := strings.Repeat(zeros, 8) + "cleartomark\n/after (clear) def\n"
 	hexProg := append([]byte("%!PS\n/before 1 def\ncurrentfile eexec\n"), Hex(Eexec(plain))...)
